@@ -76,6 +76,10 @@ var c12Histories = map[string][]string{
 	"refresh-rejected":      {"serve:v1", "hs", "serve:v2bad", "refresh"},
 	"refresh-fetch-failure": {"serve:v1", "hs", "down", "refresh"},
 	"two-refreshes":         {"serve:v1", "hs", "serve:v2", "refresh", "serve:v3", "refresh"},
+	// a rejected refresh followed by an accepted one
+	"refresh-rejected-then-accepted": {"serve:v1", "hs", "serve:v2bad", "refresh", "serve:v3", "refresh"},
+	// a second distribution point is loaded and refreshed next to the first one
+	"second-location": {"serve:v1", "hs", "serveB", "hsB", "serve:v2", "refresh"},
 }
 
 // acceptedAt returns, for a history, the lists that may legitimately be in force after a crash anywhere in it
@@ -92,6 +96,10 @@ func c12Allowed(hist string) []string {
 		return []string{"v1"}
 	case "two-refreshes":
 		return []string{"v1", "v2", "v3"}
+	case "refresh-rejected-then-accepted":
+		return []string{"v1", "v3"}
+	case "second-location":
+		return []string{"v1", "v2"}
 	}
 	return nil
 }
@@ -120,6 +128,11 @@ func c12Child(hist, dir string, dieAt int) int {
 				w.Net.Serve(urlA, st, c.v[strings.TrimPrefix(st, "serve:")])
 			case st == "down":
 				w.Net.Down(urlA)
+			case st == "serveB":
+				w.Net.Serve(urlB, "vb", world.SimpleCRL(c.p.CA, 1, 900).DER())
+			case st == "hsB":
+				lb := world.Leaf(c.p.CA, bi(901), []string{urlB}, nil)
+				w.Lookup(lb, world.Chain(lb, c.p.CA, c.p.Root))
 			case st == "hs":
 				w.Lookup(c.probes[0], world.Chain(c.probes[0], c.p.CA, c.p.Root))
 			case st == "refresh":
@@ -142,21 +155,37 @@ type c12Restart struct {
 	IDsBefore    []string `json:"ids_before"`
 	IDsAfter     []string `json:"ids_after"`
 	Panic        string   `json:"panic"`
+	// StartupEffects is the number of effect points Provision went through (the crash points of a crash during recovery)
+	StartupEffects int `json:"startup_effects"`
 }
 
 // c12RestartChild: fresh validator over the crashed work_dir, origin down, strict on.
-func c12RestartChild(dir string) int {
+// With dieAt > 0 the restarting process itself dies at its dieAt-th effect point during Provision (crash during recovery).
+func c12RestartChild(dir string, dieAt int) int {
 	c := newC12Cast()
 	var r c12Restart
 	r.IDsBefore, _, _ = ListDir(dir)
+	count := 0
 	res := seqWorld(func() {
+		vsched.EffectHook = func(kind, arg string) error {
+			count++
+			if dieAt > 0 && count == dieAt {
+				syscall.Kill(os.Getpid(), syscall.SIGKILL)
+				select {}
+			}
+			return nil
+		}
 		w := NewCW(CWOpt{Disk: true, SigMode: config.SignatureValidationModeVerify, Strict: true, Dir: dir})
 		w.Net.Down(urlA)
+		w.Net.Down(urlB)
 		if err := w.Provision(); err != nil {
+			vsched.EffectHook = nil
 			r.ProvisionErr = err.Error()
 			return
 		}
 		vsched.Drain()
+		vsched.EffectHook = nil
+		r.StartupEffects = count
 		r.IDsAfter, r.TmpAfter, r.OtherAfter = ListDir(dir)
 		var out []string
 		for _, pr := range c.probes {
@@ -187,7 +216,11 @@ func RunC12(tier string, args []string) int {
 		return c12Child(args[1], args[2], k)
 	}
 	if len(args) > 0 && args[0] == "restart" {
-		return c12RestartChild(args[1])
+		dieAt := 0
+		if len(args) > 2 {
+			dieAt, _ = strconv.Atoi(args[2])
+		}
+		return c12RestartChild(args[1], dieAt)
 	}
 	chk := fw.NewCheck("C12", tier, "fault_enumeration")
 	chk.Assumptions = []string{
@@ -198,11 +231,15 @@ func RunC12(tier string, args []string) int {
 	c := newC12Cast()
 	hists := []string{"first-load-accepted", "first-load-rejected", "refresh-accepted", "refresh-rejected"}
 	if tier == "thorough" {
-		hists = []string{"first-load-accepted", "first-load-rejected", "first-load-truncated", "refresh-accepted", "refresh-rejected", "refresh-fetch-failure", "two-refreshes"}
+		hists = []string{"first-load-accepted", "first-load-rejected", "first-load-truncated", "refresh-accepted", "refresh-rejected", "refresh-fetch-failure", "two-refreshes", "refresh-rejected-then-accepted", "second-location"}
 	}
+	// second level: the restarted process dies as well, at every effect point of its Provision (startup sweep, opening
+	// the stores), and a third process restarts over that image.
+	doubleCrash := func(h string) bool { return true }
 	type job struct {
 		hist string
 		k    int
+		j    int // 0: single crash; > 0: the restart dies at its j-th startup effect point
 	}
 	var jobs []job
 	points := map[string]int{}
@@ -222,7 +259,7 @@ func RunC12(tier string, args []string) int {
 		}
 		points[h] = n
 		for k := 1; k <= n; k++ {
-			jobs = append(jobs, job{h, k})
+			jobs = append(jobs, job{h, k, 0})
 		}
 	}
 	type result struct {
@@ -230,12 +267,28 @@ func RunC12(tier string, args []string) int {
 		r   c12Restart
 		err string
 	}
-	results := make([]result, len(jobs))
+	var mu sync.Mutex
+	var results []result
+	add := func(r result) {
+		mu.Lock()
+		results = append(results, r)
+		mu.Unlock()
+	}
+	parse := func(out string) (c12Restart, bool) {
+		for _, l := range strings.Split(out, "\n") {
+			if strings.HasPrefix(l, "RESTART ") {
+				var r c12Restart
+				json.Unmarshal([]byte(strings.TrimPrefix(l, "RESTART ")), &r)
+				return r, true
+			}
+		}
+		return c12Restart{}, false
+	}
 	var wg sync.WaitGroup
 	sem := make(chan struct{}, 16)
-	for i, j := range jobs {
+	for _, j := range jobs {
 		wg.Add(1)
-		go func(i int, j job) {
+		go func(j job) {
 			defer wg.Done()
 			sem <- struct{}{}
 			defer func() { <-sem }()
@@ -245,33 +298,87 @@ func RunC12(tier string, args []string) int {
 			defer os.RemoveAll(dir)
 			_, err := c12Exec("child", j.hist, dir, fmt.Sprint(j.k))
 			if err == nil {
-				results[i] = result{job: j, err: "child did not die at its crash point"}
+				add(result{job: j, err: "child did not die at its crash point"})
 				return
+			}
+			idsImage, _, _ := ListDir(dir)
+			image := dir + ".image"
+			if doubleCrash(j.hist) {
+				os.RemoveAll(image)
+				if out, err := exec.Command("cp", "-a", dir, image).CombinedOutput(); err != nil {
+					add(result{job: j, err: "cannot copy the crash image: " + string(out)})
+					return
+				}
+				defer os.RemoveAll(image)
 			}
 			out, err := c12Exec("restart", dir)
 			if err != nil {
-				results[i] = result{job: j, err: "restart child failed: " + err.Error() + " " + out}
+				add(result{job: j, err: "restart child failed: " + err.Error() + " " + out})
 				return
 			}
-			for _, l := range strings.Split(out, "\n") {
-				if strings.HasPrefix(l, "RESTART ") {
-					var r c12Restart
-					json.Unmarshal([]byte(strings.TrimPrefix(l, "RESTART ")), &r)
-					results[i] = result{job: j, r: r}
+			r, ok := parse(out)
+			if !ok {
+				add(result{job: j, err: "restart child printed no result: " + out})
+				return
+			}
+			add(result{job: j, r: r})
+			if !doubleCrash(j.hist) {
+				return
+			}
+			for jj := 1; jj <= r.StartupEffects; jj++ {
+				j2 := job{j.hist, j.k, jj}
+				d2 := fmt.Sprintf("%s.r%d", dir, jj)
+				os.RemoveAll(d2)
+				if out, err := exec.Command("cp", "-a", image, d2).CombinedOutput(); err != nil {
+					add(result{job: j2, err: "cannot copy the crash image: " + string(out)})
 					return
 				}
+				if _, err := c12Exec("restart", d2, fmt.Sprint(jj)); err == nil {
+					os.RemoveAll(d2)
+					add(result{job: j2, err: "restarting child did not die at its crash point"})
+					return
+				}
+				out, err := c12Exec("restart", d2)
+				os.RemoveAll(d2)
+				if err != nil {
+					add(result{job: j2, err: "second restart child failed: " + err.Error() + " " + out})
+					return
+				}
+				r2, ok := parse(out)
+				if !ok {
+					add(result{job: j2, err: "second restart child printed no result: " + out})
+					return
+				}
+				r2.IDsBefore = idsImage // a store of the first crash image must survive both restarts
+				add(result{job: j2, r: r2})
 			}
-			results[i] = result{job: j, err: "restart child printed no result: " + out}
-		}(i, j)
+		}(j)
 	}
 	wg.Wait()
 	outcomes := fw.NewDistinct()
 	nontrivial := 0
 	var samples []string
 	allERR := strings.TrimSuffix(strings.Repeat("ERR,", len(c12Serials)), ",")
+	sort.Slice(results, func(a, b int) bool {
+		x, y := results[a].job, results[b].job
+		if x.hist != y.hist {
+			return x.hist < y.hist
+		}
+		if x.k != y.k {
+			return x.k < y.k
+		}
+		return x.j < y.j
+	})
+	double := 0
 	for _, res := range results {
 		j := res.job
-		rep := map[string]interface{}{"driver": "C12", "history": j.hist, "crash_point": j.k}
+		rep := map[string]interface{}{"driver": "C12", "history": j.hist, "crash_point": j.k, "restart_crash_point": j.j}
+		hname := j.hist
+		if j.j > 0 {
+			// same oracle, one level deeper: the restarted process died at its j-th startup effect point, a third one restarted
+			double++
+			j.hist += "+crash-during-restart"
+		}
 		if res.err != "" {
 			fmt.Fprintf(os.Stderr, "harness error: %s crash point %d: %s\n", j.hist, j.k, res.err)
 			return 2
@@ -294,14 +401,14 @@ func RunC12(tier string, args []string) int {
 		}
 		if r.Vector != allERR {
 			ok := false
-			for _, l := range c12Allowed(j.hist) {
+			for _, l := range c12Allowed(hname) {
 				if r.Vector == c.vector(l) {
 					ok = true
 				}
 			}
 			if !ok {
 				var al []string
-				for _, l := range c12Allowed(j.hist) {
+				for _, l := range c12Allowed(hname) {
 					al = append(al, l+"="+c.vector(l))
 				}
 				chk.Violation("C12|loaded-data-not-a-complete-accepted-crl|"+j.hist,
@@ -332,9 +439,11 @@ func RunC12(tier string, args []string) int {
 	}
 	sort.Strings(ps)
 	cov := fw.Coverage{
-		"evaluations":              len(jobs),
+		"evaluations":              len(results),
+		"single_crash_evaluations": len(results) - double,
+		"double_crash_evaluations": double,
 		"distinct_nontrivial":      nontrivial,
-		"rule":                     "one evaluation per (history, crash point); crash points are all effect points of the history; non-trivial = the restarted validator treats the location as loaded (so the on-disk data is actually consulted)",
+		"rule":                     "one evaluation per (history, crash point) and, where the second level is on, per (history, crash point, startup effect point of the restart at which the restarting process dies too); crash points are all effect points of the history; non-trivial = the restarted validator treats the location as loaded (so the on-disk data is actually consulted)",
 		"crash_points_per_history": ps,
 		"distinct_outcomes":        outcomes.Counts(),
 		"samples":                  samples,
